@@ -38,6 +38,8 @@ def run(ctx):
     res.rules.update({"X-NODES": "the per-order sub-hypergraph keeps ALL nodes when keep_isolated_nodes is set (rows of the per-order matrices)", "X-WEIGHT": "weights reach the per-order sub-hypergraph", "X-FLAG": "same weightedness", "X-EMETA": "(shared with C05)", "X-NMETA": "(shared with C05)", "X-DELEG": "(shared with C05)"})
     with res.guard("X.check_extractionctx, res, Hypergraph.get_edges"):
         X.check_extraction(ctx, res, "Hypergraph.get_edges")
+    with res.guard("X.check_nodes_before_return(Hypergraph.get_edges)"):
+        X.check_nodes_before_return(ctx, res, "Hypergraph.get_edges")
     # ---- the encoder is fitted on the current node set: get_mapping answers from the live tables, or from a memo that every
     #      node-set change rebinds (E-CACHE)
     res.rules.update({"E-PURE": "get_mapping and the matrix builders leave the hypergraph unchanged (a memoised encoder is not a change by itself)", "E-CACHE": "a value cached on the hypergraph by a query (fitted encoder) is rebound by every method that changes the tables it was computed from"})
